@@ -407,6 +407,31 @@ func c02Run(c *mon.Ctx, csAny any) {
 		return true
 	}
 
+	// "sets the receiver ... and returns it": a caller may chain on the returned pointer, and what it then does lands in the
+	// receiver (and nowhere else: a fresh element is still the identity afterwards)
+	chain := func(ret *secp256k1.Element, val oracle.Pt, what string) {
+		if ret == nil {
+			c.Fail(what+" returned nil", what+"-returns-nil", nil)
+			return
+		}
+
+		c.Count("chained-on-return")
+
+		if pan, pv := mon.Call(func() { ret.Add(secp256k1.Base()) }); pan {
+			c.Fail(fmt.Sprint(what, ": a chained Add on the returned element panicked: ", pv), what+"-chained-panic", nil)
+			return
+		}
+
+		if ok, why := mon.ElemIs(a, oracle.Add(val, oracle.G())); !ok {
+			c.Fail(fmt.Sprintf("%s: x.%s().Add(G) does not leave x = %s(x) + G (the returned element is not the receiver): %s", what, what, what, why), what+"-chained-value", nil)
+			return
+		}
+
+		if n := secp256k1.NewElement(); !n.IsIdentity() || len(n.Encode()) != 1 {
+			c.Fail(what+": after a chained call on the returned element a fresh NewElement() is no longer the identity", "package-identity-corrupted", nil)
+		}
+	}
+
 	switch cs.Op {
 	case "double":
 		c.Eval(1)
@@ -417,8 +442,12 @@ func c02Run(c *mon.Ctx, csAny any) {
 			return
 		}
 
-		if checkResult(a, oracle.Dbl(pa), "double") && ret != a {
-			checkResult(ret, oracle.Dbl(pa), "double-return")
+		if checkResult(a, oracle.Dbl(pa), "double") {
+			if ret != a {
+				checkResult(ret, oracle.Dbl(pa), "double-return")
+			}
+
+			chain(ret, oracle.Dbl(pa), "Double")
 		}
 	case "negate":
 		c.Eval(1)
@@ -429,8 +458,12 @@ func c02Run(c *mon.Ctx, csAny any) {
 			return
 		}
 
-		if checkResult(a, oracle.Neg(pa), "negate") && ret != a {
-			checkResult(ret, oracle.Neg(pa), "negate-return")
+		if checkResult(a, oracle.Neg(pa), "negate") {
+			if ret != a {
+				checkResult(ret, oracle.Neg(pa), "negate-return")
+			}
+
+			chain(ret, oracle.Neg(pa), "Negate")
 		}
 	case "add-nil", "sub-nil":
 		c.Eval(1)
@@ -538,8 +571,14 @@ func c02Run(c *mon.Ctx, csAny any) {
 			return
 		}
 
-		if checkResult(a, want, cs.Op) && ret != a {
-			checkResult(ret, want, cs.Op+"-return")
+		if checkResult(a, want, cs.Op) {
+			if ret != a {
+				checkResult(ret, want, cs.Op+"-return")
+			}
+
+			if cs.Alias == "distinct" {
+				chain(ret, want, map[string]string{"add": "Add", "sub": "Subtract"}[cs.Op])
+			}
 		}
 
 		if cs.Alias != "same" {
